@@ -996,6 +996,10 @@ pub(crate) fn c17_jobs(tier: Tier) -> Vec<HybJob> {
         (vec![ins(2), fill, HOp::Wait], vec![ins(1), fill, HOp::Get { k: 2 }, fill, ins(2), fill, HOp::Get { k: 1 }, HOp::Get { k: 2 }]),
         (vec![ins(1), fill, HOp::Wait], vec![ins(2), fill, HOp::Get { k: 1 }, fill, ins(1), fill, HOp::Get { k: 2 }, HOp::Get { k: 1 }]),
         (vec![ins(2), fill, HOp::Wait], vec![ins(1), HOp::Get { k: 2 }, fill, HOp::Get { k: 2 }, fill, HOp::Rm { k: 1 }, HOp::Get { k: 2 }]),
+        // an older version of one key on disk, its update and an insert of the colliding key both queued, memory
+        // emptied, then lookups while the writes are still pending
+        (vec![ins(1), fill, HOp::Wait], vec![ins(1), ins(2), fill, HOp::Get { k: 1 }, HOp::Get { k: 2 }]),
+        (vec![ins(2), fill, HOp::Wait], vec![ins(2), ins(1), fill, HOp::Get { k: 2 }, HOp::Get { k: 1 }]),
     ];
     for woi in [true, false] {
         let mut cfg = HybCfg::small(woi, true);
